@@ -799,7 +799,14 @@ impl CodegenContext {
                                     None => self.current_scope_nx,
                                 };
 
-                                for (child_id, child_nx) in self.symbols.children(import_nx) {
+                                // The children come from a hash map; go over them in a well-defined order, so that
+                                // e.g. the error about an already defined symbol does not differ from run to run
+                                for (child_id, child_nx) in self
+                                    .symbols
+                                    .children(import_nx)
+                                    .into_iter()
+                                    .sorted_by_key(|(child_id, _)| child_id.to_string())
+                                {
                                     // Do not import special identifiers
                                     if child_id.is_special() {
                                         continue;
